@@ -295,9 +295,33 @@ fn content_fixpoint<C: EventContentFromType + Serialize>(ty: &str, content: &Val
     Ok(s1)
 }
 
+fn near_miss_type(t: &str, how: u8) -> String {
+    if t.starts_with("m.secret_storage.key.") {
+        // every suffix is within the wildcard type: near misses exist on the prefix side only
+        return ["m.secret_storage.key", "m.secret_storage.keys", "m.secret_storage.key_backup", "m.secret_storage.ke", "m.secret_storage.keyring.v1", "m.secret_storage.KEY.abc", "m.secret_storage.key abc"][how as usize % 7].to_owned();
+    }
+    let tail = t.rsplit('.').next().unwrap_or(t);
+    match how % 7 {
+        0 => format!("{t}s"),
+        1 => tail.to_owned(),
+        2 => t.to_uppercase(),
+        3 => format!("m.room.{t}"),
+        4 => format!("{t}."),
+        5 => format!(" {t}"),
+        _ => t.trim_start_matches("m.").to_owned(),
+    }
+}
+
 fn oracle_with(table: &[Schema], c: &EvCase, cx: &mut CaseCtx) -> Result<(), String> {
     let sch = &table[c.schema as usize % table.len()];
-    let ty: String = c.unknown_type.clone().unwrap_or_else(|| sch.ty.to_owned());
+    let ty: String = match &c.unknown_type {
+        Some(u) if u.starts_with("~near~") => near_miss_type(sch.ty, u[6..].parse().unwrap_or(0)),
+        Some(u) => u.clone(),
+        None => sch.ty.to_owned(),
+    };
+    if c.unknown_type.as_deref().is_some_and(|u| u.starts_with("~near~")) {
+        cx.class("near_miss_of_known_type");
+    }
     let custom = c.unknown_type.is_some();
     let mut g = G::new(&c.choices);
     let mut content = (sch.gen)(&mut g);
@@ -557,36 +581,19 @@ fn main() {
     let n = ck.n(150_000, 6_000_000);
     let nt = table.len() as u16;
     let t2 = table.clone();
-    let names: std::sync::Arc<Vec<String>> = std::sync::Arc::new(table.iter().map(|s| s.ty.to_owned()).collect());
     ck.prop(
         "events",
         n,
         move || {
-            let names = names.clone();
-            // names that merely look like a known type must take the custom route
-            let near = (any::<u16>(), 0u8..7).prop_map(move |(i, how)| {
-                let t = &names[(i as usize * names.len()) >> 16];
-                let tail = t.rsplit('.').next().unwrap_or(t);
-                if t.starts_with("m.secret_storage.key.") {
-                    // every suffix is within the wildcard type: no near miss exists on this side
-                    return "m.secret_storage.ke".to_owned();
-                }
-                match how {
-                    0 => format!("{t}s"),
-                    1 => tail.to_owned(),
-                    2 => t.to_uppercase(),
-                    3 => format!("m.room.{t}"),
-                    4 => format!("{t}."),
-                    5 => format!(" {t}"),
-                    _ => t.trim_start_matches("m.").to_owned(),
-                }
-            });
+            // names that merely look like the schema's own type must take the custom route (expanded
+            // in the oracle from the schema the case selects, so that the event kind matches)
+            let near = (0u8..7).prop_map(|how| format!("~near~{how}"));
             (0..nt, prop::option::weighted(0.08, prop_oneof![2 => Just("org.example.custom".to_owned()), 2 => Just("m.room.unknown_future".to_owned()), 2 => "[a-z]{1,6}\\.[a-z.]{1,8}", 2 => "[a-z./\"\\\\ \u{e9}\u{1F600}\n]{1,8}", 3 => near]), prop::collection::vec(any::<u8>(), 0..40), 0u8..3, prop::option::weighted(0.25, 1u8..=11), any::<u8>(), any::<u8>(), prop_oneof![Just(0u8), 1u8..16])
                 .prop_map(|(schema, unknown_type, choices, format, redacted_version, unsigned_bits, salt, spelling)| EvCase { schema, unknown_type, choices, format, redacted_version, unsigned_bits, salt, spelling })
         },
         move |c, cx| oracle_with(&t2, c, cx),
     );
-    for cls in ["state", "message_like", "ephemeral", "global_account_data", "room_account_data", "to_device", "unknown_type", "redacted_form", "relation", "optional_field_present", "unknown_fields_present", "escaped_or_spaced_spelling", "type_string_escaped"] {
+    for cls in ["state", "message_like", "ephemeral", "global_account_data", "room_account_data", "to_device", "unknown_type", "redacted_form", "relation", "optional_field_present", "unknown_fields_present", "escaped_or_spaced_spelling", "type_string_escaped", "near_miss_of_known_type"] {
         ck.floor("events", cls, 1000);
     }
     let n = ck.n(60_000, 2_000_000);
